@@ -21,7 +21,9 @@
 (*     absorbing states have no real out-transitions), Hops (same with unit costs),      *)
 (*     FromStart (cheapest cost from the start).                                         *)
 (* (R) reference machines, one action per step of the code:                              *)
-(*     Configure (plan_on up to the first push: one configuration of the instance)      *)
+(*     LoadOracle, Configure (plan_on up to the first push: one configuration of the    *)
+(*     instance), PlanNext (the same planner object plans the instance named by `then`   *)
+(*     after the first search returned: every planner variable starts afresh)            *)
 (*     A*  : APop (heappop; stale / superseded node skipped | goal -> return | visit +   *)
 (*           action order)                                                               *)
 (*           APush (one iteration of `for a in shuffled(actions)`: skip visited, skip    *)
@@ -56,8 +58,8 @@ Runs   == Batch.runs
 
 INF == 1000000
 
-VARIABLES iid, cid, phase, heap, fifo, best, came, visited, tb, cur, todo, result, orc, verdict, l
-vars == <<iid, cid, phase, heap, fifo, best, came, visited, tb, cur, todo, result, orc, verdict, l>>
+VARIABLES iid, cid, phase, heap, fifo, best, came, visited, tb, cur, todo, result, orc, verdict, l, prev
+vars == <<iid, cid, phase, heap, fifo, best, came, visited, tb, cur, todo, result, orc, verdict, l, prev>>
 
 \* ------------------------------------------------------------------ (M) the graph
 Nodes(g)   == 1..g.N
@@ -207,12 +209,20 @@ StepL == l' = IF Mode = "trace" THEN l + 1 ELSE l
 
 InitMC ==
   /\ iid \in 1..Len(Graphs)
-  /\ cid = 0                                     \* the oracle state (emission); Configure picks a configuration
-  /\ orc = Oracle(Graphs[iid])
-  /\ phase = "oracle"
+  /\ cid = 0
+  /\ orc = None
+  /\ phase = "load"
   /\ heap = {} /\ fifo = <<>> /\ best = EmptyMap(Graphs[iid]) /\ tb = 0
   /\ came = EmptyMap(Graphs[iid]) /\ visited = {} /\ cur = None /\ todo = <<>>
-  /\ result = None /\ verdict = {} /\ l = 0
+  /\ result = None /\ verdict = {} /\ l = 0 /\ prev = 0
+
+\* the oracle of the instance (a step rather than part of Init, so that TLC's workers share the work);
+\* the "oracle" state is the one that is emitted, Configure then picks a configuration
+LoadOracle ==
+  /\ phase = "load"
+  /\ orc' = Oracle(G)
+  /\ phase' = "oracle"
+  /\ UNCHANGED <<iid, cid, heap, fifo, best, came, visited, tb, cur, todo, result, verdict, l, prev>>
 
 \* plan_on up to the first push: rnd = random.Random(seed); dsp = from_mdp(mdp); push(start)
 Configure ==
@@ -227,11 +237,32 @@ Configure ==
           /\ fifo' = IF cf.alg = "bfs" THEN <<G.start>> ELSE <<>>
           /\ best' = IF cf.alg = "astar" THEN [EmptyMap(G) EXCEPT ![G.start] = n0] ELSE EmptyMap(G)
           /\ tb' = IF cf.alg = "astar" THEN t1 ELSE 0
-  /\ UNCHANGED <<iid, came, visited, cur, todo, result, orc, verdict, l>>
+  /\ UNCHANGED <<iid, came, visited, cur, todo, result, orc, verdict, l, prev>>
+
+\* call history: the SAME planner object plans the next problem (instance field `then`, a graph over the
+\* same labels) after this search has returned, possibly with nodes still queued.  plan_on allocates its
+\* queue, best_in_queue_by_state, visited and camefrom per call, so the second call starts exactly like a
+\* fresh search: every planner variable is re-initialised, only `prev` remembers the history.
+PlanNext ==
+  /\ phase = "done" /\ Mode = "mc" /\ prev = 0 /\ G.then # 0
+  /\ LET g2 == Graphs[G.then]
+         cf == g2.cfgs[cid]
+         o2 == Oracle(g2)
+         t1 == NextTb(0, cf.tie)
+         n0 == <<F(o2.hz[cf.hk], 0, g2.start), t1, 0, g2.start>>
+     IN /\ iid' = G.then /\ prev' = iid /\ orc' = o2
+        /\ phase' = "pop"
+        /\ heap' = IF cf.alg = "astar" THEN {n0} ELSE {}
+        /\ fifo' = IF cf.alg = "bfs" THEN <<g2.start>> ELSE <<>>
+        /\ best' = IF cf.alg = "astar" THEN [EmptyMap(g2) EXCEPT ![g2.start] = n0] ELSE EmptyMap(g2)
+        /\ tb' = IF cf.alg = "astar" THEN t1 ELSE 0
+        /\ came' = EmptyMap(g2) /\ visited' = {} /\ cur' = None /\ todo' = <<>> /\ result' = None
+  /\ UNCHANGED <<cid, verdict, l>>
 
 \* ---- A*
 APop ==
   /\ phase = "pop" /\ Alg = "astar" /\ heap # {}
+  /\ prev' = prev
   /\ \E n \in PopChoices(heap, Tie) :
        LET s == n[4] IN
        IF s \in visited THEN
@@ -258,6 +289,7 @@ APop ==
 
 APush ==
   /\ phase = "expand" /\ Alg = "astar"
+  /\ prev' = prev
   /\ LET a    == Head(todo)
          s    == cur[4]
          ns   == G.nxt[s][a]
@@ -282,6 +314,7 @@ APush ==
 \* ---- breadth-first search
 BPop ==
   /\ phase = "pop" /\ Alg = "bfs" /\ fifo # <<>>
+  /\ prev' = prev
   /\ LET s == Head(fifo) IN
      IF IsGoal(G, s) THEN Finish("done", ResultPath(G, came, s, -1, visited))
      ELSE \E ord \in Orders(G, s, Rnd) :
@@ -294,6 +327,7 @@ BPop ==
 
 BPush ==
   /\ phase = "expand" /\ Alg = "bfs"
+  /\ prev' = prev
   /\ LET a    == Head(todo)
          s    == cur[4]
          ns   == G.nxt[s][a]
@@ -309,6 +343,7 @@ BPush ==
 \* ---- `while queue:` falls through: plan_on returns None
 ReturnNone ==
   /\ phase = "pop"
+  /\ prev' = prev
   /\ (Alg = "astar" /\ heap = {}) \/ (Alg = "bfs" /\ fifo = <<>>)
   /\ Finish("done", ResultNone(visited))
 
@@ -316,17 +351,20 @@ ReturnNone ==
 InitJudge ==
   /\ cid \in 1..Len(Runs)
   /\ iid = Runs[cid].gid
-  /\ orc = Oracle(Graphs[iid])
+  /\ orc = None
   /\ phase = "judge"
   /\ result = Runs[cid].res
   /\ heap = {} /\ fifo = <<>> /\ best = EmptyMap(Graphs[iid]) /\ came = EmptyMap(Graphs[iid])
-  /\ visited = {} /\ tb = 0 /\ cur = None /\ todo = <<>> /\ verdict = {} /\ l = 0
+  /\ visited = {} /\ tb = 0 /\ cur = None /\ todo = <<>> /\ verdict = {} /\ l = 0 /\ prev = 0
 
+\* the clauses need the cost-to-go and the hops only (relaxation fixpoints: fine for graphs of 40 states,
+\* which are judged here without being explored by the machines)
+JudgeOracle(g) == [togo |-> ToGo(g, "cost"), hops |-> ToGo(g, "unit")]
 JudgeStep ==
   /\ phase = "judge"
   /\ phase' = "judged"
-  /\ verdict' = Fails(G, Runs[cid].alg, result, orc)
-  /\ UNCHANGED <<iid, cid, heap, fifo, best, came, visited, tb, cur, todo, result, orc, l>>
+  /\ LET o == JudgeOracle(G) IN orc' = o /\ verdict' = Fails(G, Runs[cid].alg, result, o)
+  /\ UNCHANGED <<iid, cid, heap, fifo, best, came, visited, tb, cur, todo, result, l, prev>>
 
 \* ---- trace mode: one recorded execution of the real code per run, replayed on the machine
 InitTrace ==
@@ -343,7 +381,7 @@ InitTrace ==
         /\ best = IF cf.alg = "astar" THEN [EmptyMap(g) EXCEPT ![g.start] = n0] ELSE EmptyMap(g)
         /\ tb = IF cf.alg = "astar" THEN t1 ELSE 0
         /\ came = EmptyMap(g)
-  /\ visited = {} /\ cur = None /\ todo = <<>> /\ result = None /\ verdict = {} /\ l = 0
+  /\ visited = {} /\ cur = None /\ todo = <<>> /\ result = None /\ verdict = {} /\ l = 0 /\ prev = 0
 
 \* the machine ended like the real run: every event consumed, same Return event
 SameResult(r, logged) ==
@@ -353,7 +391,7 @@ SameResult(r, logged) ==
 TraceAccepted == l = Len(Visits) /\ SameResult(result, Runs[cid].res)
 
 Init == IF Mode = "judge" THEN InitJudge ELSE IF Mode = "trace" THEN InitTrace ELSE InitMC
-Next == Configure \/ APop \/ APush \/ BPop \/ BPush \/ ReturnNone \/ JudgeStep
+Next == LoadOracle \/ Configure \/ PlanNext \/ APop \/ APush \/ BPop \/ BPush \/ ReturnNone \/ JudgeStep
 Spec == Init /\ [][Next]_vars
 
 \* ------------------------------------------------------------------ emission
@@ -362,7 +400,7 @@ Emit ==
        PrintT(ToJson([kind |-> "oracle", iid |-> iid, togo |-> orc.togo, hops |-> orc.hops, from |-> orc.from,
                       hz |-> orc.hz, subcost |-> orc.subcost, subhops |-> orc.subhops, shape |-> Shape(G, orc)]))
   /\ (phase \in {"done", "error"} /\ Mode = "mc") =>
-       PrintT(ToJson([kind |-> "outcome", iid |-> iid, cid |-> cid, phase |-> phase, res |-> result]))
+       PrintT(ToJson([kind |-> "outcome", iid |-> iid, cid |-> cid, prev |-> prev, phase |-> phase, res |-> result]))
   /\ (phase \in {"done", "error"} /\ Mode = "trace") =>
        PrintT(ToJson([kind |-> "trace", tid |-> cid, accepted |-> TraceAccepted, consumed |-> l]))
   /\ phase = "judged" =>
@@ -392,6 +430,8 @@ InstanceWellFormed == phase = "oracle" =>
   \* cbase = B > 0 the instance stands for the real problem with costs (c div B) * M + (c mod B), M = cbig.
   \* That embedding is additive and order preserving on all sums a search can form (at most N edges plus
   \* a heuristic that is itself such a sum) when the residues cannot carry into the next digit:
+  \* a planner object is re-used on a problem with the same configuration menu
+  /\ G.then # 0 => (G.then \in 1..Len(Graphs) /\ G.then # iid /\ Graphs[G.then].cfgs = G.cfgs)
   /\ G.cbase > 0 => \A s \in Nodes(G) : \A a \in 1..G.K : (G.cost[s][a] % G.cbase) * 2 * G.N < G.cbase
 HeuristicsConsistent == phase = "oracle" => \A k \in {"zero", "exact", "half", "custom", "relaxed"} : Consistent(G, orc.hz[k])
 \* A*: a state is visited with its optimal cost from the start (consistent heuristic).  States with an
@@ -422,5 +462,5 @@ FrontierSound ==
      /\ Range(fifo) \cap visited = {}
      /\ visited \cap Goals(G) = {}
 \* every behaviour ends: a non-terminal state always has a successor
-NoStuckState == phase \in {"oracle", "pop", "expand", "judge"} => ENABLED Next
+NoStuckState == phase \in {"load", "oracle", "pop", "expand", "judge"} => ENABLED Next
 =============================================================================
